@@ -33,7 +33,7 @@ type sentObj struct {
 }
 
 // sendAll loops WriteObjects -> bytes -> PackfileReader -> Receive until done.
-func sendAll(sender *apiutils.ObjectSender, recv *apiutils.ObjectReceiver, mutate func(pack int, objs [][2]interface{}) [][2]interface{}) (packs [][]sentObj, recvDone bool, err error) {
+func sendAll(sender *apiutils.ObjectSender, recv *apiutils.ObjectReceiver, mutate func(pack int, objs [][2]interface{}) [][2]interface{}, cutPack func(pack int, data []byte) []byte) (packs [][]sentObj, recvDone bool, err error) {
 	for i := 0; i < 100000; i++ {
 		var buf bytes.Buffer
 		sdone, info, werr := sender.WriteObjects(&buf, nil)
@@ -64,6 +64,9 @@ func sendAll(sender *apiutils.ObjectSender, recv *apiutils.ObjectReceiver, mutat
 				pw.WriteObject(ob[0].(int), ob[1].([]byte))
 			}
 			data = nb.Bytes()
+		}
+		if cutPack != nil {
+			data = cutPack(i, data)
 		}
 		var one []sentObj
 		for _, ob := range info.Objects {
@@ -248,10 +251,56 @@ func c07Run(c *fw.Case, env *fw.Env) *fw.Obs {
 			return objs
 		}
 	}
+	// "truncated": one packfile ends in the middle of an object's body (the connection dropped); the objects after the
+	// cut are lost although the sender counts them as sent
+	var cutPack func(int, []byte) []byte
+	cutDesc := ""
+	if p.Hostile == "truncated" {
+		target := rng.Intn(1 + min(p.N, 6))
+		tablesOnly := rng.Intn(2) == 0 // half the cuts fall inside a table object (its commit follows in the stream)
+		cutPack = func(pack int, data []byte) []byte {
+			if mutated || pack < target {
+				return data
+			}
+			pr, perr := packfile.NewPackfileReader(io.NopCloser(bytes.NewReader(data)))
+			if perr != nil {
+				return data
+			}
+			type span struct{ typ, end, n int }
+			var spans []span
+			for {
+				ot, b, e := pr.ReadObject()
+				if e != nil || ot == 0 {
+					break
+				}
+				spans = append(spans, span{ot, 0, len(b)})
+			}
+			// object j ends at len(data) minus the encoded size of everything after it; walk back from the end
+			end := len(data)
+			for j := len(spans) - 1; j >= 0; j-- {
+				spans[j].end = end
+				end -= spans[j].n + packHeaderLen(uint64(spans[j].n))
+			}
+			var cand []span
+			for _, sp := range spans {
+				if sp.n >= 2 && (!tablesOnly || sp.typ == packfile.ObjectTable) {
+					cand = append(cand, sp)
+				}
+			}
+			if len(cand) == 0 {
+				return data
+			}
+			sp := cand[rng.Intn(len(cand))]
+			k := 1 + rng.Intn(sp.n-1) // bytes of the body that are lost
+			mutated = true
+			cutDesc = fmt.Sprintf("packfile %d cut %d bytes before the end of a %d-byte object of type %d", pack, k, sp.n, sp.typ)
+			return data[:sp.end-k]
+		}
+	}
 	var packs [][]sentObj
 	var rdone bool
 	var serr error
-	if pn := fw.Catch(func() { packs, rdone, serr = sendAll(sender, recv, mutate) }); pn != "" {
+	if pn := fw.Catch(func() { packs, rdone, serr = sendAll(sender, recv, mutate, cutPack) }); pn != "" {
 		o.Violate("panic/transfer/"+class, "%s", pn)
 		return o
 	}
@@ -265,7 +314,18 @@ func c07Run(c *fw.Case, env *fw.Env) *fw.Obs {
 	o.Ev("objects_prepopulated", int64(pre))
 	o.Sample = map[string]interface{}{"commits": p.N, "to_send": len(toSend), "common_tips": len(commonTips), "max_pack": p.MaxPack, "packfiles": len(packs), "objects": nobj, "hostile": p.Hostile, "via_finder": p.Finder}
 	after := dst.Snapshot()
-	if p.Hostile != "" {
+	if p.Hostile == "truncated" && mutated {
+		o.Ev("truncated_streams", 1)
+		o.Sample.(map[string]interface{})["cut"] = cutDesc
+		if serr != nil {
+			o.Ev("truncated_streams_refused", 1)
+			c07CheckVisible(o, dst, before, after, p.Hostile)
+			o.Key("hostile/%s/%d", p.Hostile, c.Seed%100000)
+			return o
+		}
+		// accepted to the end: then nothing may be missing (falls through to the completeness checks)
+		class = "truncated-stream-accepted/" + class
+	} else if p.Hostile != "" {
 		if !mutated {
 			o.Ev("hostile_not_applicable", 1)
 		} else {
@@ -403,6 +463,21 @@ func c07CheckVisible(o *fw.Obs, dst *mon.MemStore, before, after map[string][]by
 	}
 }
 
+// packHeaderLen is the size of a packfile object header for a body of n bytes (4 bits in the first byte, 7 per further
+// byte, at least two bytes).
+func packHeaderLen(n uint64) int {
+	h := 1
+	n >>= 4
+	for n > 0 {
+		h++
+		n >>= 7
+	}
+	if h == 1 {
+		h = 2
+	}
+	return h
+}
+
 func hexDecode(s string) []byte {
 	b := make([]byte, len(s)/2)
 	fmt.Sscanf(s, "%x", &b)
@@ -444,6 +519,9 @@ func init() {
 					if p.N < 3 {
 						p.N = 3 + rng.Intn(6)
 					}
+				} else if rng.Intn(6) == 0 {
+					p.Hostile = "truncated"
+					p.MaxPack = []uint64{1, 1, 100, 1024}[rng.Intn(4)]
 				}
 				l.Add("transfer", p, 0)
 			}
